@@ -277,8 +277,11 @@ theorem step_qtzOK (s : State) (op : Op) (h : QtzOK s) : QtzOK (step s op) := by
       split at hj
       · subst hj
         exact h q0 hm
-      · subst hj
-        exact h _ hm
+      · split at hj
+        · subst hj
+          exact h q0 hm
+        · subst hj
+          exact h _ hm
   | _ => exact h
 
 theorem run_qtzOK (ops : List Op) : ∀ s : State, QtzOK s → QtzOK (run s ops) := by
@@ -361,25 +364,34 @@ theorem run_rgAt_noSetter (ops : List Op) : ∀ (s : State) (i : Nat), isParamAt
 /-! ### when `backward()` raises -/
 
 theorem bwdError_iff (s : State) :
-    bwdError s = true ↔ ∃ j q, s.qs[j]? = some q ∧ (reached s).contains j = true ∧
-      q.sampler = .none ∧ q.thetaGraph = true := by
+    bwdError s = true ↔ s.detachOnNone = false ∧ ∃ j q, s.qs[j]? = some q ∧
+      (reached s).contains j = true ∧ q.sampler = .none ∧ q.thetaGraph = true := by
   unfold bwdError
-  simp only [List.any_eq_true, List.mem_range]
+  simp only [Bool.and_eq_true, Bool.not_eq_true', List.any_eq_true, List.mem_range]
   constructor
-  · rintro ⟨j, hj, hst⟩
+  · rintro ⟨hd, j, hj, hst⟩
+    refine ⟨hd, ?_⟩
     unfold staleGraph at hst
     cases hq : s.qs[j]? with
     | none => simp [hq] at hst
     | some q =>
       simp only [hq, Bool.and_eq_true, beq_iff_eq] at hst
       exact ⟨j, q, hq, hst.1.1, hst.1.2, hst.2⟩
-  · rintro ⟨j, q, hq, h1, h2, h3⟩
+  · rintro ⟨hd, j, q, hq, h1, h2, h3⟩
     have hj : j < s.qs.length := by
       by_contra hn
       rw [List.getElem?_eq_none (by omega)] at hq
       cases hq
-    refine ⟨j, hj, ?_⟩
+    refine ⟨hd, j, hj, ?_⟩
     have h1' : j ∈ reached s := by simpa using h1
     simp [staleGraph, hq, h1', h2, h3]
+
+theorem step_detach (s : State) (op : Op) : (step s op).detachOnNone = s.detachOnNone := by
+  cases op <;> rfl
+
+theorem run_detach (ops : List Op) : ∀ s : State, (run s ops).detachOnNone = s.detachOnNone := by
+  induction ops with
+  | nil => intro s; rfl
+  | cons op ops ih => intro s; exact (ih _).trans (step_detach s op)
 
 end PlinioVerif.Train
